@@ -587,8 +587,18 @@ class Gen:
             e = self.expr_of(t, scopes)
             scopes[-1][name] = t
             return [('assign', name, e)]
-        if c < 0.26 and ivars:
+        if c < 0.22 and ivars:
             return [('assign', r.choice(ivars), self.int_e(scopes, 0, counters))]
+        if c < 0.26:
+            # self-referential updates in both operand orders (`x = x (+) e`, `x = e (+) x`), ints and strings
+            svars = [n for n in self.vars_of(scopes, 'str') if n not in counters]
+            pool = [(n, 'int') for n in ivars] + [(n, 'str') for n in svars]
+            if pool:
+                n, t = r.choice(pool)
+                e = self.int_e(scopes, 1, counters) if t == 'int' else self.str_e(scopes, 1)
+                op = r.choice(['+', '-', '*']) if t == 'int' else '+'
+                left, right = (('var', n), e) if r.random() < 0.5 else (e, ('var', n))
+                return [('assign', n, ('bin', op, left, right)), ('print', ('var', n))]
         if c < 0.36 and ivars:
             return [('opassign', r.choice(ivars), r.choice(['+=', '-=', '*=']), self.int_e(scopes, 1, counters))]
         if c < 0.40:
@@ -923,6 +933,25 @@ def systematic_programs(max_level=2):
                 for lvl, kind in enumerate(reversed(chain)):
                     body = wrap(kind, body, "k%d" % (len(chain) - lvl), True)
                 emit([P("begin")] + body + [P("end")], ["sys"] + list(chain) + [ex + "-tail"])
+
+    # self-referential updates: every operator in both operand orders, ints and strings, at module level,
+    # inside a block and inside a function (plain `x = x (+) e` and the op-assign spelling)
+    for where in ('module', 'block', 'fn'):
+        stmts = [('assign', 'u1', ('int', 7)), ('assign', 't1', ('str', "ab"))]
+        for op in ('+', '-', '*', '/', '%'):
+            stmts += [('assign', 'u1', ('bin', op, ('var', 'u1'), ('int', 3))), ('print', ('var', 'u1')),
+                      ('assign', 'u1', ('bin', op, ('int', 20), ('var', 'u1'))), ('print', ('var', 'u1')),
+                      ('assign', 'u1', ('int', 7))]
+        stmts += [('assign', 't1', ('bin', '+', ('var', 't1'), ('str', "x"))), ('print', ('var', 't1')),
+                  ('assign', 't1', ('bin', '+', ('str', "y"), ('var', 't1'))), ('print', ('var', 't1')),
+                  ('assign', 't1', ('bin', '+', ('int', 5), ('var', 't1'))), ('print', ('var', 't1')),
+                  ('opassign', 't1', '+=', ('str', "z")), ('print', ('var', 't1')),
+                  ('opassign', 'u1', '-=', ('int', 2)), ('print', ('var', 'u1'))]
+        if where == 'block':
+            stmts = [('if', [(T, stmts)], [P("skipped")])]
+        elif where == 'fn':
+            stmts = [('fn', 'f1', [], 'int', stmts + [('return', ('var', 'u1'))]), ('print', ('call', 'f1', []))]
+        emit([P("begin")] + stmts + [P("end")], ["sys-update", where])
 
     # from-loop matrix
     for incl in (False, True):
